@@ -1266,8 +1266,7 @@ theorem hardLinkSame_sub {fs1 : FS} (hw : WF fs1) {sf : String} {sp dp : Path} {
     · split at h
       · rw [← (Prod.mk.inj h).1]; exact ⟨Sub.refl _, OnlyFile.refl _ _⟩
       · split at h
-        · rename_i hs _ _ _
-          split at h
+        · split at h
           · rename_i fs2 hp
             have hsub := placeAt_sub hw hp
             have honly := placeAt_only hp
@@ -1277,9 +1276,282 @@ theorem hardLinkSame_sub {fs1 : FS} (hw : WF fs1) {sf : String} {sp dp : Path} {
               · simp only [Bool.false_eq_true, if_false] at h
                 rw [← (Prod.mk.inj h).1]; exact ⟨hsub, honly⟩
             · rw [← (Prod.mk.inj h).1]; exact ⟨hsub, honly⟩
-          · rename_i r hr
-            rw [← h]
-            cases hp : placeAt fs1 sf dp (fun h1 => (getRegion hs.entries _, h1.next)) ErrClass.os with
-            | mk fs2 oc2 => exact ⟨placeAt_sub hw hp, placeAt_only hp⟩
+          · exact ⟨placeAt_sub hw h, placeAt_only h⟩
         · rw [← (Prod.mk.inj h).1]; exact ⟨Sub.refl _, OnlyFile.refl _ _⟩
+
+theorem copyOp_cases {fs : FS} {v : Variant} {sf : String} {sp : Path} {df : String} {dp : Path}
+    {ow link rename soft : Bool} {fs' : FS} {oc : Outcome}
+    (h : copyOp fs v sf sp df dp ow link rename soft = (fs', oc)) :
+    fs' = fs ∨ fs' = afterOpen fs df ow ∨
+    (if sf = df then
+      (if (link || rename) = true then hardLinkSame (afterOpen fs df ow) sf sp dp rename
+       else if soft = true then softLinkSame (afterOpen fs df ow) sf sp dp
+       else copySame (afterOpen fs df ow) sf sp dp)
+     else
+      (if link = true then ((afterOpen fs df ow), Outcome.err .os)
+       else if soft = true then extLink (afterOpen fs df ow) sf sp df dp
+       else copyCross (afterOpen fs df ow) v sf sp df dp rename)) = (fs', oc) := by
+  unfold copyOp at h
+  split at h
+  · exact Or.inl (Prod.mk.inj h).1.symm
+  · split at h
+    · exact Or.inl (Prod.mk.inj h).1.symm
+    · split at h
+      · exact Or.inl (Prod.mk.inj h).1.symm
+      · simp only at h
+        split at h
+        · exact Or.inr (Or.inl (Prod.mk.inj h).1.symm)
+        · exact Or.inr (Or.inr h)
+
+theorem afterOpen_only (fs : FS) (df : String) (ow : Bool) : OnlyFile df fs (afterOpen fs df ow) := by
+  unfold afterOpen
+  split
+  · exact OnlyFile.setFile _ _ _
+  · exact OnlyFile.refl _ _
+
+/-- `cp`, `ln`, `ln -s` (destination other than the root of another file), any outcome: what the
+operation leaves behind relative to the file system it worked on -/
+theorem copy_branch_sub {fs1 : FS} (hw1 : WF fs1) {v : Variant} {sf : String} {sp : Path} {df : String} {dp : Path}
+    {link soft : Bool} {fs' : FS} {oc : Outcome} (hroot : sf ≠ df → dp ≠ [])
+    (hb : (if sf = df then
+      (if (link || false) = true then hardLinkSame fs1 sf sp dp false
+       else if soft = true then softLinkSame fs1 sf sp dp
+       else copySame fs1 sf sp dp)
+     else
+      (if link = true then (fs1, Outcome.err .os)
+       else if soft = true then extLink fs1 sf sp df dp
+       else copyCross fs1 v sf sp df dp false)) = (fs', oc)) :
+    Sub fs1 fs' ∧ OnlyFile df fs1 fs' := by
+  by_cases hsame : sf = df
+  · subst hsame
+    simp only [if_true, Bool.or_false] at hb
+    split at hb
+    · exact hardLinkSame_sub hw1 hb
+    · split at hb
+      · exact ⟨placeAt_sub hw1 hb, placeAt_only hb⟩
+      · exact copySame_sub hw1 hb
+  · simp only [hsame, if_false] at hb
+    split at hb
+    · rw [← (Prod.mk.inj hb).1]; exact ⟨Sub.refl _, OnlyFile.refl _ _⟩
+    · split at hb
+      · exact ⟨placeAt_sub hw1 hb, placeAt_only hb⟩
+      · unfold copyCross at hb
+        split at hb
+        · rw [← (Prod.mk.inj hb).1]; exact ⟨Sub.refl _, OnlyFile.refl _ _⟩
+        · rename_i g S _
+          simp only [hroot hsame, if_false] at hb
+          cases hd : deepCopyTo fs1 g S df dp with
+          | mk fs2 oc2 =>
+            rw [hd] at hb
+            have := deepCopyTo_sub hw1 hd
+            cases oc2 with
+            | ok =>
+              simp only [Bool.false_and, Bool.false_eq_true, if_false] at hb
+              rw [← (Prod.mk.inj hb).1]; exact this
+            | err e => simp only at hb; rw [← (Prod.mk.inj hb).1]; exact this
+            | corner w => simp only at hb; rw [← (Prod.mk.inj hb).1]; exact this
+
+/-- **copy_frame** (cp, ln, ln -s; destination other than the root of another file).
+Whatever the outcome: (1) no file other than the destination file is touched; (2) unless an
+existing destination file was truncated by `overwrite`, every object of every file is still
+there, unchanged — so every collection reads as before, under every name. -/
+theorem copy_frame {fs : FS} (hw : WF fs) {v : Variant} {sf : String} {sp : Path} {df : String} {dp : Path}
+    {ow link soft : Bool} {fs' : FS} {oc : Outcome}
+    (hroot : sf ≠ df → dp ≠ [])
+    (h : copyOp fs v sf sp df dp ow link false soft = (fs', oc)) :
+    OnlyFile df fs fs' ∧
+    ((ow = true → getFile fs df = none) →
+      Sub fs fs' ∧ ∀ g u c, Reads fs g u c → Reads fs' g u c) := by
+  have hw1 := afterOpen_wf hw df ow
+  have key : OnlyFile df fs fs' ∧ ((ow = true → getFile fs df = none) → Sub fs fs') := by
+    rcases copyOp_cases h with rfl | rfl | hb
+    · exact ⟨OnlyFile.refl _ _, fun _ => Sub.refl _⟩
+    · exact ⟨afterOpen_only _ _ _, fun hT => afterOpen_sub hT⟩
+    · obtain ⟨hs, ho⟩ := copy_branch_sub hw1 hroot hb
+      exact ⟨(afterOpen_only _ _ _).trans ho, fun hT => (afterOpen_sub hT).trans hs⟩
+  exact ⟨key.1, fun hT => ⟨key.2 hT, fun g u c hr => hr.mono (key.2 hT)⟩⟩
+
+/-- the successful branches of `_copy` other than the root-destination copy all end in one
+`placeAt` of a well-formed region -/
+def Placed (fs1 : FS) (df : String) (dp : Path) (fs' : FS) : Prop :=
+  ∃ (new : H5File → Entries × Nat) (ex : ErrClass),
+    placeAt fs1 df dp new ex = (fs', .ok) ∧ ∀ h1, RelWF (new h1).1
+
+theorem deepCopyTo_placed {fs1 : FS} (hw : WF fs1) {g : String} {S : Path} {df : String} {dp : Path} {fs' : FS}
+    (h : deepCopyTo fs1 g S df dp = (fs', .ok)) : Placed fs1 df dp fs' := by
+  unfold deepCopyTo at h
+  split at h
+  · simp at h
+  · rename_i hs hg
+    split at h
+    · exact ⟨_, _, h, fun h1 => relWF_shift _ (relWF_getRegion (hw g hs hg) S)⟩
+    · simp at h
+
+theorem copy_branch_placed {fs1 : FS} (hw1 : WF fs1) {v : Variant} {sf : String} {sp : Path} {df : String} {dp : Path}
+    {link soft : Bool} {fs' : FS} (hroot : sf ≠ df → dp ≠ [])
+    (hb : (if sf = df then
+      (if (link || false) = true then hardLinkSame fs1 sf sp dp false
+       else if soft = true then softLinkSame fs1 sf sp dp
+       else copySame fs1 sf sp dp)
+     else
+      (if link = true then (fs1, Outcome.err .os)
+       else if soft = true then extLink fs1 sf sp df dp
+       else copyCross fs1 v sf sp df dp false)) = (fs', .ok)) :
+    Placed fs1 df dp fs' := by
+  by_cases hsame : sf = df
+  · subst hsame
+    simp only [if_true, Bool.or_false] at hb
+    split at hb
+    · obtain ⟨S, hs, fs2, D, _, hg, _, hp, _, _, hfin⟩ := hardLinkSame_ok hb
+      simp only [Bool.false_eq_true, if_false] at hfin
+      subst hfin
+      exact ⟨_, _, hp, fun _ => relWF_getRegion (hw1 sf hs hg) S⟩
+    · split at hb
+      · exact ⟨_, _, hb, fun _ => relWF_single _⟩
+      · unfold copySame at hb
+        split at hb
+        · simp at hb
+        · exact deepCopyTo_placed hw1 hb
+  · simp only [hsame, if_false] at hb
+    split at hb
+    · simp at hb
+    · split at hb
+      · exact ⟨_, _, hb, fun _ => relWF_single _⟩
+      · unfold copyCross at hb
+        split at hb
+        · split at hb <;> simp at hb
+        · rename_i g S _
+          simp only [hroot hsame, if_false] at hb
+          cases hd : deepCopyTo fs1 g S df dp with
+          | mk fs2 oc2 =>
+            rw [hd] at hb
+            cases oc2 with
+            | ok =>
+              simp only [Bool.false_and, Bool.false_eq_true, if_false] at hb
+              rw [← (Prod.mk.inj hb).1]; exact deepCopyTo_placed hw1 hd
+            | err e => simp at hb
+            | corner w => simp at hb
+
+/-- **copy_frame_new**: after a successful cp / ln / ln -s, whatever exists now and did not exist
+when the files were opened lies in the destination file, under the destination's canonical
+location `D` — or is an empty intermediate group created on the way to it.  The file system
+stays well-formed. -/
+theorem copy_frame_new {fs : FS} (hw : WF fs) {v : Variant} {sf : String} {sp : Path} {df : String} {dp : Path}
+    {ow link soft : Bool} {fs' : FS} (hroot : sf ≠ df → dp ≠ [])
+    (h : copyOp fs v sf sp df dp ow link false soft = (fs', .ok)) :
+    WF fs' ∧ ∃ D, destOf (afterOpen fs df ow) df dp = some D ∧ lookupE (afterOpen fs df ow) df D = none ∧
+      ∀ g k e, lookupE fs' g k = some e → lookupE (afterOpen fs df ow) g k = some e ∨
+        (g = df ∧ (under D k = true ∨ ∃ o, e = .group o [])) := by
+  have hw1 := afterOpen_wf hw df ow
+  obtain ⟨_, _, hb⟩ := copyOp_opened h
+  obtain ⟨new, ex, hp, hrel⟩ := copy_branch_placed hw1 hroot hb
+  obtain ⟨h1, P, x, _, _, _, _, hnew, hwf, hdest, habs⟩ := placeAt_facts hw1 hp
+  exact ⟨hwf (hrel h1), P ++ [x], hdest, habs, hnew⟩
+
+/-! ### `mv` -/
+
+theorem unlink_ok {fs : FS} {f : String} {p : Path} {fs' : FS} (h : unlink fs f p = .ok fs') :
+    ∃ y Ps hh, p = p.dropLast ++ [y] ∧ resolve fs f p.dropLast = some (f, Ps) ∧ getFile fs f = some hh ∧
+      fs' = setFile fs f ⟨removeUnder (Ps ++ [y]) hh.entries, hh.next⟩ := by
+  unfold unlink at h
+  split at h
+  · simp at h
+  · rename_i y hy
+    split at h
+    · simp at h
+    · rename_i g Ps hres
+      split at h
+      · simp at h
+      · rename_i hgf
+        have hgf' : g = f := by simpa using hgf
+        subst hgf'
+        split at h
+        · simp at h
+        · rename_i hh hg
+          split at h
+          · simp at h
+          · split at h
+            · simp at h
+            · simp only [Except.ok.injEq] at h
+              exact ⟨y, Ps, hh, dropLast_append_getLast hy, hres, hg, h.symm⟩
+
+/-- removing a region only removes: the smaller file system is contained in the larger -/
+theorem sub_of_removeUnder {fs : FS} {f : String} {hh : H5File} (hg : getFile fs f = some hh) (L : Path) (nx : Nat) :
+    Sub (setFile fs f ⟨removeUnder L hh.entries, nx⟩) fs := by
+  constructor
+  · intro g hs
+    rw [getFile_setFile] at hs
+    by_cases e : f = g
+    · subst e; simp [hg]
+    · simpa [e] using hs
+  · intro g k e hk
+    rw [lookupE_setFile] at hk
+    by_cases e' : f = g
+    · subst e'
+      simp only [if_true, lookupK_removeUnder] at hk
+      unfold lookupE; rw [hg]
+      by_cases hu : under L k = true
+      · simp [hu] at hk
+      · simpa [hu] using hk
+    · simpa [e'] using hk
+
+theorem unlink_gone {fs : FS} {f : String} {p : Path} {fs' : FS} (h : unlink fs f p = .ok fs') :
+    ∀ l, ¬ Resolves fs' f p l := by
+  obtain ⟨y, Ps, hh, hp, hres, hg, rfl⟩ := unlink_ok h
+  intro l ⟨n, hn⟩
+  rw [hp, resolveN_snoc] at hn
+  cases hr : resolveN (setFile fs f ⟨removeUnder (Ps ++ [y]) hh.entries, hh.next⟩) n f p.dropLast with
+  | none => rw [hr] at hn; simp [stepWith] at hn
+  | some l' =>
+    obtain ⟨g', P'⟩ := l'
+    have h1 : Resolves fs f p.dropLast (g', P') := Resolves.mono (sub_of_removeUnder hg _ _) ⟨n, hr⟩
+    have h2 : (g', P') = (f, Ps) := h1.det ⟨LINKFUEL, hres⟩
+    obtain ⟨rfl, rfl⟩ := Prod.mk.inj h2
+    rw [hr] at hn
+    unfold stepWith at hn
+    simp only [lookupE_setFile_same, lookupK_removeUnder, under_refl, if_true] at hn
+    simp at hn
+
+/-- **mv_source_gone**, full statement: after a successful `mv` the source path no longer names
+anything.  FALSE for the code as it is when the two files differ (finding D4, see
+`mv_cross_file_keeps_source` and `d4_counterexample`); true for the specification
+(`mv_source_gone_spec`) and within one file (`mv_source_gone_partial`). -/
+def mv_source_gone_Statement (v : Variant) : Prop :=
+  ∀ (fs : FS) (sf : String) (sp : Path) (df : String) (dp : Path) (ow : Bool) (fs' : FS),
+    WF fs → mv fs v sf sp df dp ow = (fs', .ok) → ∀ l, ¬ Resolves fs' sf sp l
+
+/-- `mv` inside one file removes the source (any links, any paths) -/
+theorem mv_source_gone_partial {fs : FS} {v : Variant} {sf : String} {sp dp : Path} {ow : Bool} {fs' : FS}
+    (h : mv fs v sf sp sf dp ow = (fs', .ok)) : ∀ l, ¬ Resolves fs' sf sp l := by
+  unfold mv at h
+  obtain ⟨_, _, hb⟩ := copyOp_opened h
+  simp only [if_true, Bool.or_true] at hb
+  obtain ⟨S, hs, fs2, D, _, _, _, _, _, _, hfin⟩ := hardLinkSame_ok hb
+  simp only [if_true] at hfin
+  exact unlink_gone hfin
+
+/-- the specification (`d4 = false`) removes the source across files as well -/
+theorem mv_source_gone_spec : mv_source_gone_Statement Variant.spec := by
+  intro fs sf sp df dp ow fs' _ h
+  by_cases hsame : sf = df
+  · subst hsame; exact mv_source_gone_partial h
+  · unfold mv at h
+    obtain ⟨_, _, hb⟩ := copyOp_opened h
+    simp only [hsame, if_false, Bool.false_eq_true] at hb
+    unfold copyCross at hb
+    split at hb
+    · split at hb <;> simp at hb
+    · split at hb
+      · simp only [Variant.spec, Bool.not_false, Bool.and_self, if_true] at hb
+        split at hb
+        · rename_i fs3 hun
+          rw [← (Prod.mk.inj hb).1]
+          exact unlink_gone hun
+        · rename_i o hun
+          exact absurd ((Prod.mk.inj hb).2 ▸ hun) (unlink_ne_ok _ _ _)
+      · rename_i r hr
+        obtain ⟨fs2, oc⟩ := r
+        simp only [Prod.mk.injEq] at hb
+        obtain ⟨rfl, rfl⟩ := hb
+        exact absurd rfl (hr fs2)
 end Cooler.C15
